@@ -139,7 +139,7 @@ func ruleC11Wire(e *Env) {
 	}
 	usite := flow.FnName(ub)
 	recv := &pred.Cell{V: a.recv("old"), Name: "recv"}
-	newFn := e.P.Func("date", "New")
+	newFn := e.F("date", "New")
 	sums := map[string]pred.Summary{}
 	if newFn != nil {
 		sums[newFn.String()] = newSummary(a)
@@ -167,7 +167,7 @@ func ruleC11Wire(e *Env) {
 			return pred.Tuple{}, nil
 		}
 	}
-	if f := e.P.Func("date", "FromTime"); f != nil {
+	if f := e.F("date", "FromTime"); f != nil {
 		sums[f.String()] = fromTime(false)
 	}
 	if f := e.P.Method("date", "Date", "FromTime"); f != nil {
